@@ -33,6 +33,11 @@ type opRec struct {
 	DatumDiff string  `json:"-"`
 	ExprDiff  string  `json:"-"`
 	Ran       bool    `json:"-"`
+	// the value an Execute returned, its fingerprint at return time, and what a
+	// second look at the end of the run found changed ("" = still the same)
+	res      interface{}
+	resCanon string
+	ResDiff  string `json:"-"`
 }
 
 type passResult struct {
@@ -141,7 +146,10 @@ func (e *runEnv) doOp(t int, op plan.SOp, locals *[]*Object, checkDatum bool) op
 	case "eval":
 		rec.Out = obj.Evaluate(datum)
 	case "exec":
-		rec.Out = obj.Execute(datum)
+		rec.Out, rec.res = obj.ExecuteRaw(datum)
+		if rec.res != nil {
+			rec.resCanon = Canon(rec.res, false)
+		}
 	case "expr":
 		rec.Out = obj.Expression()
 		if !rec.Out.Skip && rec.Out.Value != obj.Spec.Expr {
@@ -273,11 +281,41 @@ func runHistory(p *plan.SchedPlan, order []opRef) *passResult {
 		}
 	}
 	for _, r := range order {
-		res.Recs[r.T][r.J] = e.doOp(r.T, p.Tasks[r.T][r.J], &locals[r.T], true)
+		op := p.Tasks[r.T][r.J]
+		if op.Kind == "mutate" {
+			// results may legitimately share memory with the datum they were filtered
+			// from: the caller's own mutation is allowed to show through them
+			for t := range res.Recs {
+				for j := range res.Recs[t] {
+					if p.Tasks[t][j].Datum == op.Datum {
+						res.Recs[t][j].res = nil
+					}
+				}
+			}
+		}
+		res.Recs[r.T][r.J] = e.doOp(r.T, op, &locals[r.T], true)
 	}
 	res.TotalStep = verifsim.Steps()
 	verifsim.SetMode(verifsim.ModeOff)
+	res.lookAgain()
 	return res
+}
+
+// lookAgain fingerprints every retained Execute result a second time, after all
+// calls of the run have returned.
+func (res *passResult) lookAgain() {
+	for t := range res.Recs {
+		for j := range res.Recs[t] {
+			r := &res.Recs[t][j]
+			if r.res == nil {
+				continue
+			}
+			if after := Canon(r.res, false); after != r.resCanon {
+				r.ResDiff = firstDiff(r.resCanon, after)
+			}
+			r.res = nil
+		}
+	}
 }
 
 var abortIndex int
@@ -335,6 +373,7 @@ func runConc(p *plan.SchedPlan, refSteps [][]int) *passResult {
 	res.Stats = verifsim.RunStats()
 	res.Log = verifsim.Log()
 	res.TotalStep = verifsim.Steps()
+	res.lookAgain()
 	for i, d := range e.data {
 		if after := Canon(d, true); after != before[i] {
 			res.DataDiff[i] = firstDiff(before[i], after)
@@ -504,6 +543,10 @@ func judgeHistory(p *plan.SchedPlan, fresh, hist *passResult) []Finding {
 				out = append(out, Finding{Property: "C13", Kind: "expression-not-source", Key: "C13/expression-not-source", Task: t, Op: j,
 					Detail: describeOp(p, t, j) + ": " + h.ExprDiff})
 			}
+			if h.ResDiff != "" {
+				out = append(out, Finding{Property: "C13", Kind: "result-changed-after-return", Key: "C13/result-changed-after-return/" + op.Kind, Task: t, Op: j,
+					Detail: fmt.Sprintf("%s: the value it returned was different when looked at again after the later calls of the history (state carried between calls is observable through it): %s", describeOp(p, t, j), h.ResDiff)})
+			}
 		}
 	}
 	return out
@@ -560,6 +603,10 @@ func judgeConc(p *plan.SchedPlan, fresh, hist, conc *passResult) []Finding {
 			}
 			if c.ExprDiff != "" {
 				out = append(out, Finding{Property: "C12", Kind: "outcome-differs", Key: "C12/outcome-differs/expr", Task: t, Op: j, Detail: describeOp(p, t, j) + ": " + c.ExprDiff})
+			}
+			if c.ResDiff != "" {
+				out = append(out, Finding{Property: "C12", Kind: "result-changed-after-return", Key: "C12/result-changed-after-return/" + op.Kind, Task: t, Op: j,
+					Detail: fmt.Sprintf("%s: the value it returned under the concurrent schedule was different when looked at again after all callers had finished (another call wrote into it): %s", describeOp(p, t, j), c.ResDiff)})
 			}
 		}
 	}
